@@ -307,8 +307,9 @@ func check(t run.TB, c Case) outcome {
 			} else if !cr.OK && cr.Code == 1303 && orRuleCycle(g) && run.MatchKnown("C09-or-rule-cycle-with-terminating-alternative-rejected") {
 				// a missing type next to the recorded or-rule cycle: the other defect is reported first
 				run.Label("missing-type-and-or-rule-cycle")
-			} else if cr.Code != 1302 || !named {
-				run.Fail(t, chk, c, "types %v are missing: expected error 1302 naming one of them, got %v", miss, cr)
+			} else if !named {
+				// ("fails naming the missing type": the number of the error is the library's business)
+				run.Fail(t, chk, c, "types %v are missing: expected an error naming one of them, got %v", miss, cr)
 			}
 		}
 		return o
